@@ -110,7 +110,12 @@ macro_rules! runner {
                     }
                 },
                 Some((Layer::NotCompiled(exprs), rest)) => {
-                    let globs: Result<Vec<Glob<'_>>, _> = exprs.iter().map(|x| Glob::new(x.as_str())).collect();
+                    // compiled values: borrowed and OWNED globs alternate (an owned glob is re-encoded from its owned tree)
+                    let globs: Result<Vec<Glob<'_>>, _> = exprs
+                        .iter()
+                        .enumerate()
+                        .map(|(i, x)| if i % 2 == 0 { Glob::new(x.as_str()).map(|g| g.into_owned()) } else { Glob::new(x.as_str()) })
+                        .collect();
                     let globs = match globs {
                         Ok(globs) => globs,
                         Err(_) => return Err("noterr".into()),
